@@ -15,6 +15,7 @@ mod c08;
 mod c09;
 mod c10;
 mod stats;
+mod session;
 mod c13;
 mod c14;
 mod c16;
@@ -54,6 +55,7 @@ fn main() {
         ("c03", "record") => c03::record(rest),
         ("c04", "record") => c04::record(rest),
         ("c14", "record") => c14::record(rest),
+        ("session", "replay") => session::replay(rest),
         (p, m) => util::tool_error(&format!("unknown command {p} {m}")),
     }
 }
